@@ -410,6 +410,54 @@ def concurrent_calls(run):
     core.explore(body, on_path)
 
 
+@harness(['C16'], 'supp.remote.Environment._run')
+def run_launch(run):
+    """_run(): launches exactly one process; the attribute `conn` does not exist before the connection is established (other threads test its
+    presence to decide whether a server must be started) and is the connection afterwards; when the server never accepts, _run raises after
+    the time limit and leaves no `conn` behind, so that the next call starts over"""
+    import supp.remote as R
+    import subprocess
+    import multiprocessing.connection as MC
+
+    def go(path):
+        for fails, label in ((0, 'accepts-at-once'), (3, 'accepts-at-the-fourth-attempt'), (10 ** 9, 'never-accepts')):
+            env = R.Environment()
+            seen, launches, clock = [], [], [0.0]
+
+            class FakePopen(object):
+                def __init__(self, args, env=None):
+                    launches.append(args)
+
+            def fake_client(addr):
+                seen.append(hasattr(env, 'conn'))
+                if len(seen) <= fails:
+                    raise ConnectionRefusedError('not yet')
+                return 'the connection'
+            real = (subprocess.Popen, MC.Client, R.time.time, R.time.sleep)
+            subprocess.Popen, MC.Client = FakePopen, fake_client
+            R.time.time = lambda: clock[0]
+            R.time.sleep = lambda t: clock.__setitem__(0, clock[0] + t)
+            try:
+                try:
+                    env._run()
+                    exc = None
+                except Exception as e:
+                    exc = e
+            finally:
+                subprocess.Popen, MC.Client, R.time.time, R.time.sleep = real
+            run.case = label
+            prove('one-process-launched', len(launches) == 1, path=path)
+            prove('no-connection-attribute-before-it-is-established', seen and not any(seen),
+                  clause='while _run is still trying to connect, `conn` does not exist: a caller that tests for it goes through run() and waits [%r]' % (seen[:6],), path=path)
+            if fails < 10 ** 9:
+                prove('connected-afterwards', exc is None and getattr(env, 'conn', None) == 'the connection', path=path)
+            else:
+                prove('time-limit-raises-and-leaves-no-connection', exc is not None and not hasattr(env, 'conn') and len(seen) < 100,
+                      clause='a server that never accepts: _run raises after the time limit and `conn` does not exist [%r, attempts %d]' % (exc, len(seen)), path=path)
+        run.case = None
+    core.explore(lambda: None, lambda p, out: go(p))
+
+
 @harness(['C16', 'C15'], 'supp.remote.Environment.close / _call[sequential contracts]')
 def close_and_call(run):
     """close(): with a connection: sends exactly one well-formed ('close', (), {}) message, closes and forgets the connection, so that the
